@@ -188,7 +188,7 @@ structure PState where
   frames : List (List Active) := []
 deriving Repr, DecidableEq
 
-def errAt {α : Type} (cls : String) (d : Disp) : Res α := .err cls d.file d.line
+def errAt {α : Type} (cls : String) (d : Disp) : Res α := .err cls d.errPos.1 d.errPos.2
 
 def envR (cfg : Cfg) (s : Bytes) : Res Bytes :=
   match replaceEnvVars cfg.env cfg.envFuel s with
@@ -237,6 +237,15 @@ def activesOf : List (String × List Token) → Nat → List Active
     let restLen := (rest.map (·.2.length)).sum
     ⟨.file n, a + restLen⟩ :: activesOf rest a
 
+/-- the errors of the loop over the matched files, in order: a file the cursor is inside of is an import cycle;
+an EMPTY file can not be imported (`lexer.load` fails with EOF: "Could not read tokens while importing") -/
+def scanFiles (check : Bool) (frames : List (List Active)) : List (String × Bytes) → Option String
+  | [] => none
+  | f :: rest =>
+    if check && importing frames (.file f.1) then some "import-cycle"
+    else if f.2.isEmpty then some "import-fs"
+    else scanFiles check frames rest
+
 /-- what the import directive names (`pat`, after environment replacement): the tokens to splice in and the
 import stack afterwards.  `d1` = the dispenser on the argument (for error positions), `afterLen` = number of
 tokens following the directive. -/
@@ -251,8 +260,9 @@ def resolveImport (cfg : Cfg) (s : PState) (d1 : Disp) (pat : Bytes) (afterLen :
     match resolve cfg.fs pat with
     | .fsError => errAt "import-fs" d1
     | .files ms =>
-      if cfg.cycleCheck && ms.any (fun f => importing frames (.file f.1)) then errAt "import-cycle" d1
-      else
+      match scanFiles cfg.cycleCheck frames ms with
+      | some cls => errAt cls d1
+      | none =>
         let imps := importFiles ms
         .ok (imps.flatMap (·.2),
           if cfg.cycleCheck then
